@@ -267,9 +267,13 @@ def run_tmpl(ctx, p):
     tname, form, kinds, fn = TEMPLATES()[p['t']]
     vals, mask = p['vals'], p['mask']
     syms = sympy.symbols('s0:%d' % len(vals), real=True)
-    args = [syms[i] if mask[i] else vals[i] for i in range(len(vals))]
-    sub = {syms[i]: vals[i] for i in range(len(vals)) if mask[i]}
-    sig = dict(api=tname, form=form, mask=''.join('s' if m else 'n' for m in mask))
+    exact = p.get('exact') or [None] * len(vals)
+
+    def exact_arg(d):       # an exact SymPy constant (n/d, or n/d * pi): symbolic, but with no free symbol
+        return sympy.Rational(d[0], d[1]) * (sympy.pi if d[2] else 1)
+    args = [exact_arg(exact[i]) if mask[i] == 'c' else (syms[i] if mask[i] else vals[i]) for i in range(len(vals))]
+    sub = {syms[i]: vals[i] for i in range(len(vals)) if mask[i] is True}
+    sig = dict(api=tname, form=form, mask=''.join('c' if m == 'c' else ('s' if m else 'n') for m in mask))
     try:
         num = fn(list(vals))
     except Exception as e:
@@ -322,12 +326,50 @@ def run_tmpl(ctx, p):
                 bad.append((i, c, xs))
         ctx.judge('constants', not bad, dict(sig, kind='structural_constant_not_exact'),
                   lambda: '%s (%s) mask %s: entries that are constant 0/1 in the numeric result are not exact: %s' % (tname, form, sig['mask'], core.short(bad, 300)))
+    # (with exact SymPy constants as arguments -- pi/2, 1/3 -- only what the property states is judged: values, structural 0 / 1 entries,
+    #  acceptance.  That cos(pi/2) comes out as an exact 0 is not promised: the library itself returns 1.2e-16 for 90 given in degrees)
     ctx.cell('tmpl', tname, form, sig['mask'])
     if any(mask):
         ctx.nontrivial(tname, form, sig['mask'])
 
 
-RUNNERS = {'tmpl': run_tmpl}
+def run_inthistory(ctx, p):
+    """a symbolic call whose arguments are exact SymPy integers, then the numeric call with the equal Python ints (and the other way
+    round with other integers): the numeric call returns plain numbers, equal to what it returns in a new process, and the symbolic
+    result evaluates to the same values"""
+    sympy = sy()
+    tname, form, kinds, fn = TEMPLATES()[p['t']]
+    sig = dict(api=tname, form=form)
+    for order, ks in (('symbolic first', p['ks1']), ('numeric first', p['ks2'])):
+        outs = {}
+        for which in (('sym', 'num') if order == 'symbolic first' else ('num', 'sym')):
+            try:
+                outs[which] = fn([sympy.Integer(k) for k in ks] if which == 'sym' else [int(k) for k in ks])
+            except Exception as e:
+                outs[which] = e
+        if isinstance(outs['num'], Exception):
+            ctx.ood('value')
+            continue
+        fnum, _t = flatten(outs['num'])
+        plain = [x for x in fnum if isinstance(x, sympy.Basic)]
+        ctx.judge('value', not plain, dict(sig, kind='numeric_call_returns_symbolic_entries', order=order),
+                  lambda: '%s (%s) with Python ints %s (%s with the equal SymPy integers): result holds SymPy objects %s' % (tname, form, ks, order, core.short(plain, 200)))
+        if not isinstance(outs['sym'], Exception):
+            fsym, _t3 = flatten(outs['sym'])
+            if len(fsym) == len(fnum):
+                try:
+                    nums = [evalf(x, {}) for x in fnum]
+                    big = max([1.0] + [abs(x) for x in nums])
+                    d = max([abs(evalf(a_, {}) - b_) for a_, b_ in zip(fsym, nums)] + [0.0]) / big
+                except Exception:
+                    d = None
+                if d is not None:
+                    ctx.judge('value', d <= TOL, dict(sig, kind='value_differs', order=order),
+                              lambda: '%s (%s) SymPy integers %s and the equal Python ints (%s): results differ by %.3g' % (tname, form, ks, order, d))
+    ctx.cell('inthistory', tname, form)
+
+
+RUNNERS = {'tmpl': run_tmpl, 'inthistory': run_inthistory}
 
 
 def REACH():
@@ -368,6 +410,16 @@ def run(ctx):
         ctx.harness_errors.append("':SymPy: supported' entries without a template: %s" % missing)
     reps = 4 if ctx.tier == 'quick' else 240
     i = 0
+    # first in each process (nothing remembered yet from earlier calls): exact SymPy integers and the equal Python ints in turn
+    for ti, (tname, form, kinds, fn) in enumerate(T):
+        if any(k not in ('ang', 'len', 'gen', 'angdeg') for k in kinds) or 'nearly equal' in form:
+            continue
+        for _ in range(ctx.scale(1, 20)):
+            i += 1
+            if not ctx.mine(i):
+                continue
+            ks = [int(x) for x in rng.choice(np.arange(2, 4000), size=2 * len(kinds), replace=False)]
+            drive(RUNNERS, ctx, 'inthistory', dict(t=ti, ks1=ks[:len(kinds)], ks2=ks[len(kinds):]))
     for ti, (tname, form, kinds, fn) in enumerate(T):
         consts = structural_constants(np.random.default_rng(ti), fn, kinds)
         if 'nearly equal' in form:
@@ -382,6 +434,26 @@ def run(ctx):
                     continue
                 vals = [slot_value(rng, k) for k in kinds]
                 drive(RUNNERS, ctx, 'tmpl', dict(t=ti, vals=vals, mask=list(mask), consts=consts))
+        if all(k in ('ang', 'len', 'gen', 'angdeg') for k in kinds):
+            # exact SymPy constants (multiples of pi/2 and pi/3, whole degrees, small rationals) in some or all slots, free symbols in the rest
+            for _ in range(reps):
+                i += 1
+                if not ctx.mine(i):
+                    continue
+                exact, vals, mask = [], [], []
+                for k in kinds:
+                    if k == 'ang':
+                        d_ = [int(rng.integers(-4, 5)), int([2, 2, 2, 1, 3][rng.integers(5)]), 1]
+                    elif k == 'angdeg':
+                        d_ = [int([0, 90, -90, 180, 270, 45, 30, -180][rng.integers(8)]), 1, 0]
+                    else:
+                        d_ = [int(rng.integers(-5, 6)), int([1, 1, 2, 3][rng.integers(4)]), 0]
+                    exact.append(d_)
+                    vals.append(float(d_[0]) / d_[1] * (math.pi if d_[2] else 1.0))
+                    mask.append('c' if rng.random() < 0.75 else True)
+                if 'c' not in mask:
+                    mask[0] = 'c'
+                drive(RUNNERS, ctx, 'tmpl', dict(t=ti, vals=vals, mask=mask, exact=exact, consts=consts))
         if ti % 11 == 0:
             ctx.sample(dict(template=tname, form=form, slots=kinds), limit=10)
     ctx.extra['templates'] = len(T)
